@@ -58,7 +58,7 @@ ValReport == { [id |-> ValId(tab[x[1][1]].pats[x[1][2]], x[2]),
                 single |-> RetOwned[x[1][1]] /\ SingleUse(tab[x[1][1]].pats[x[1][2]].form, x[2], tab[x[1][1]].pats[x[1][2]].chain[x[2]]),
                 delivered |-> Cardinality({ j \in 1..Len(AllDisp) : AllDisp[j].m = x[1][1] /\ AllDisp[j].sel = x[1][2]
                                               /\ AllDisp[j].seg = x[2] /\ AllDisp[j].d.k = "ret" })] : x \in ValSegs }
-Beh == [strict |-> cfg.strict, leaves |-> cfg.leaves, perm |-> cfg.perm, new |-> newErr,
+Beh == [strict |-> cfg.strict, leaves |-> cfg.leaves, perm |-> cfg.perm, new |-> newErr, offs |-> Offences(cfg.leaves, HasMutexApi),
         steps |-> [j \in 1..Len(hist) |-> StepOut(hist[j])],
         vals |-> IF phase = "done" THEN ValReport ELSE {}]
 Emit == (EmitOn /\ phase \in {"done", "newerr"}) => PrintT(<<"REPLAY", ToJson(Beh)>>)
